@@ -4,6 +4,8 @@ import (
 	"context"
 	"time"
 
+	"github.com/drand/drand/v2/internal/util"
+	"github.com/drand/drand/v2/internal/zzfake"
 	zz "github.com/drand/drand/v2/internal/zzverif"
 	drand "github.com/drand/drand/v2/protobuf/dkg"
 	pcommon "github.com/drand/drand/v2/protobuf/drand"
@@ -182,4 +184,71 @@ func ZZ_C14_dkgCommand() {
 	}
 	_, perr := p.DKGStatus(context.Background(), &drand.DKGStatusRequest{BeaconID: zzBeacon})
 	zz.Assert("still_serving_after_command", perr == nil)
+}
+
+func init() { zz.Register("ZZ_C14_dkgBundlesUnconsumed", ZZ_C14_dkgBundlesUnconsumed) }
+
+// ZZ_C14_dkgBundlesUnconsumed: protocol bundles keep arriving at a node whose key-sharing protocol is not
+// consuming them (it has ended, or has not started yet: the board stays registered between executions).
+// A (former) participant can sign as many DIFFERENT bundles as it likes; each one is new to the echo board.
+// Whatever their number, every request returns, no lock stays held and the DKG service still answers.
+func ZZ_C14_dkgBundlesUnconsumed() {
+	w := zzNewWorld(3)
+	bolt, err := NewDKGStore(zz.TempDir("c14bundles"))
+	if err != nil {
+		panic(err)
+	}
+	cur := &DBState{BeaconID: zzBeacon, Epoch: 1, State: Executing, Threshold: 2, Timeout: time.Now().Add(time.Hour), SchemeID: w.sch.Name,
+		GenesisTime: time.Unix(1700000000, 0), BeaconPeriod: 30 * time.Second, CatchupPeriod: 15 * time.Second, Leader: w.parts[1], Joining: w.parts[:3]}
+	if err := bolt.SaveCurrent(zzBeacon, cur); err != nil {
+		panic(err)
+	}
+	p := NewDKGProcess(bolt, &zzIdent{w.pairs[0]}, util.NewFanOutChan[SharingOutput](), &zzClient{}, nil,
+		Config{Timeout: time.Hour, TimeBetweenDKGPhases: 0, KickoffGracePeriod: time.Hour}, zzfake.Logger())
+	ctx := context.Background()
+	conf, err := p.setupDKG(ctx, zzBeacon)
+	if err != nil {
+		panic(err)
+	}
+	var idx1 uint32
+	for i, nd := range conf.NewNodes {
+		if nd.Public.Equal(w.pairs[1].Public.Key) {
+			idx1 = uint32(i)
+		}
+	}
+	// the number of distinct genuine bundles member 1 sends: up to twice the board's per-kind capacity (= participants)
+	k := 1 + zz.Choose("bundles", 2*len(conf.NewNodes))
+	viaGossip := zz.Bool("via_gossip_packet")
+	for i := 0; i < k; i++ {
+		b := &pdkg.ResponseBundle{ShareIndex: idx1, Responses: []pdkg.Response{{DealerIndex: uint32(i), Status: true}}, SessionID: conf.Nonce}
+		sig, err := conf.Auth.Sign(w.pairs[1].Key, b.Hash())
+		if err != nil {
+			panic(err)
+		}
+		b.Signature = sig
+		pkt := &drand.DKGPacket{Dkg: respToProto(b, zzBeacon)}
+		if i >= len(conf.NewNodes) {
+			zz.Tag("protocol_channel_full")
+		}
+		if viaGossip {
+			g := &drand.GossipPacket{Packet: &drand.GossipPacket_Dkg{Dkg: pkt}, Metadata: &drand.GossipMetadata{BeaconID: zzBeacon, Address: w.parts[1].Address, Signature: []byte{byte(i), 1, 2, 3, 4}}}
+			_, _ = zzContained(func() error { _, err := p.Packet(ctx, g); return err })
+		} else {
+			_, _ = zzContained(func() error { _, err := p.BroadcastDKG(ctx, pkt); return err })
+		}
+		zz.Quiesce()
+	}
+	free := p.lock.TryLock()
+	zz.Assert("no_lock_left_held", free)
+	if free {
+		p.lock.Unlock()
+	}
+	_, perr := p.DKGStatus(ctx, &drand.DKGStatusRequest{BeaconID: zzBeacon})
+	zz.Assert("still_serving_after_the_bundles", perr == nil)
+	board := p.Executions[zzBeacon].(*echoBroadcast)
+	boardFree := board.TryLock()
+	zz.Assert("board_lock_not_left_held", boardFree)
+	if boardFree {
+		board.Unlock()
+	}
 }
